@@ -1,4 +1,5 @@
 import BycycleModel.Basic
+import BycycleModel.FVal
 /-!
 # Line protocol values
 
@@ -88,6 +89,14 @@ def V.bits? (v : V) : Option (List Bool) :=
   | some s => s.toList.mapM fun c => if c == '1' then some true else if c == '0' then some false else none
   | none => none
 
+def V.fval? (v : V) : Option F :=
+  match v.str? with
+  | some "nan" => some .nan
+  | some "inf" => some .pinf
+  | some "-inf" => some .ninf
+  | some s => (parseRat? s).map F.fin
+  | none => none
+
 /-! ### encoding -/
 
 def encInt (i : Int) : V := .atom (toString i)
@@ -95,6 +104,8 @@ def encNat (n : Nat) : V := .atom (toString n)
 def encRat (q : Rat) : V :=
   if q.den = 1 then .atom (toString q.num) else .atom (toString q.num ++ "/" ++ toString q.den)
 def encORat : Option Rat → V | none => .atom "nan" | some q => encRat q
+def encF : F → V
+  | .nan => .atom "nan" | .pinf => .atom "inf" | .ninf => .atom "-inf" | .fin q => encRat q
 def encBool (b : Bool) : V := .atom (if b then "T" else "F")
 def encBits (bs : List Bool) : V :=
   if bs.isEmpty then .atom "e" else .atom (String.ofList (bs.map fun b => if b then '1' else '0'))
